@@ -6,6 +6,7 @@
 // date_trunc, make_timestamp, every aggregate) x 29 lines (64-bit extremes, NaN and infinities as REAL text, zero divisors,
 // huge and negative subscripts, absent groups, NULL everywhere, out-of-range date parts, dates in DST gaps of common zones,
 // malformed JSON) x 3 output formats, one line per run and all lines in one run.
+// Also: 22 x 22 lines of short / non-ASCII / numeric words through TIMESTAMP (numeric and month-name), INT, REAL, INTERVAL, BOOLEAN and array columns over captures that admit any text.
 include!("verif_grid_common.rs");
 include!("verif_grid_qcommon.rs");
 
@@ -84,6 +85,19 @@ fn verif_grid() {
                 let (query, input) = (shape.replace("{}", a), input.clone());
                 g.case(&format!("no-row-agg{}-i{}-s{}", ai, ii, si), move || match run_opts(DEF, &query, &[input], json_opts()) {
                     Outcome::Panic(p) => Err(format!("{} over an input without a qualifying row panicked: {}", query, p)), _ => Ok(()) });
+            }
+        }
+    }
+    // loose patterns: the text that reaches a typed column is whatever the line holds - short, long, non-ASCII, empty
+    {
+        let loose = "CREATE TABLE t(line = '^(\\\\S*) (\\\\S*) (\\\\S*)( \\\\S*)?', line[3], line[2], line[1] => ts TIMESTAMP, line[1], line[2], line[3] => dmy TIMESTAMP, line[1] => n INT, line[2] => r REAL, \
+                     line[3] => iv INTERVAL, line[1], line[2] => xs INT[], line[2] => t TEXT TRIM, line[4] => b BOOLEAN, line[2], line[3] => rs REAL[]);";
+        let words = ["", "J", "Ju", "Jun", "June", "ao\u{fb}t", "\u{fb}", "\u{444}\u{435}\u{432}", "d\u{e9}c", "ma\u{ef}", "\u{1f600}", "12", "0", "-1", "13", "2020", "99999999999999999999", "1e999", "nan", "1:2:3", "::", "\u{a0}x\u{a0}"];
+        for (i, first) in words.iter().enumerate() {
+            for (j, second) in words.iter().enumerate() {
+                let line = format!("{} {} {} x", first, second, words[(i + j) % words.len()]);
+                g.case(&format!("loose-text-{}-{}", i, j), move || match run_opts(loose, "SELECT * FROM t", &[b(&line)], json_opts()) {
+                    Outcome::Panic(p) => Err(format!("the line {:?} through columns of every type over loose captures: panic {}", line, p)), _ => Ok(()) });
             }
         }
     }
